@@ -501,6 +501,143 @@ _CONVERSION_IMPL = re.compile(r"^<(.+) as (?:std|core)::(?:convert::From|convert
 _DISPATCHERS = (("convert::Into::into", "from"), ("convert::TryInto::try_into", "try_from"), ("str>::parse", "from_str"))
 
 
+def _resolve_trait_methods(bodies):
+    """A method of a trait of the crate that is called on a value of a known type is the method of that type's impl: `node.xml_name()` on
+    an `Rc<RustNode>` (through the forwarding impl for `Rc<T>`) is `<RustNode as HasXmlName>::xml_name`. A *provided* method of the trait
+    (`fn referenced_xml_name(&self) { self.xml_name().ok_or(..) }`) called on a known type is a copy of its body in which the trait's
+    other methods, called on `self`, are that type's. The typed syntax tree is rewritten accordingly (the MIR already carries resolved
+    instances), so that a function moved into a trait reads like the function it was."""
+    import copy
+    import re as _re
+    impl_re = _re.compile(r"^<(.+) as ([\w:]+)>::(\w+)$")
+    impls = {}        # (trait, method) -> {self type: path}
+    for b in bodies:
+        m = impl_re.match(b["path"])
+        if m and "{closure" not in b["path"] and not m.group(2).startswith(("std::", "core::", "alloc::", "yaserde")):
+            impls.setdefault((m.group(2), m.group(3)), {})[m.group(1)] = b["path"]
+    traits = {t for (t, _m) in impls}
+    if not traits:
+        return
+    by_path = {b["path"]: b for b in bodies}
+    provided = {p: b for p, b in by_path.items() if any(p.startswith(t + "::") and p.count("::") == t.count("::") + 1 for t in traits) and b.get("hir") is not None}
+    POINTERS = ("std::rc::Rc<", "std::boxed::Box<", "std::sync::Arc<")
+
+    def strip_ty(t):
+        t = (t or "").strip()
+        while t.startswith("&"):
+            t = t[1:].strip()
+            if t.startswith("mut "):
+                t = t[4:].strip()
+            if t.startswith("'"):
+                t = t.split(" ", 1)[1].strip() if " " in t else t
+        return t
+
+    def concrete(trait, method, ty):
+        """the impl method for a value of type `ty` (through forwarding impls for smart pointers), or None"""
+        table = impls.get((trait, method), {})
+        ty = strip_ty(ty)
+        for _ in range(4):
+            if ty in table:
+                return table[ty], ty
+            base = ty.split("<", 1)[0]
+            generic = [k for k in table if k.split("<", 1)[0] == base and _re.fullmatch(r"[\w:]+<[A-Z]\w*>", k)]
+            if ty.startswith(POINTERS) and ty.endswith(">") and generic:
+                ty = strip_ty(ty[ty.index("<") + 1:-1])     # `impl<T: Tr> Tr for Rc<T> { fn m(&self) { (**self).m() } }`
+                continue
+            return None, ty
+        return None, ty
+
+    made = {}
+
+    def specialise(trait, method, ty):
+        """a copy of the provided method for Self = ty"""
+        key = f"<{ty} as {trait}>::{method}"
+        if key in made or key in by_path:
+            return key
+        src = provided.get(f"{trait}::{method}")
+        if src is None:
+            return None
+        nb = copy.deepcopy(src)
+        nb["path"] = key
+        self_ids = set()
+        ps = (nb.get("hir") or {}).get("params") or []
+        if ps:
+            def ids(p_):
+                if isinstance(p_, dict):
+                    if p_.get("k") == "Binding" and "id" in p_:
+                        self_ids.add(p_["id"])
+                    for v_ in p_.values():
+                        ids(v_)
+                elif isinstance(p_, list):
+                    for v_ in p_:
+                        ids(v_)
+            ids(ps[0])
+        made[key] = nb
+
+        def fix(n):
+            if isinstance(n, list):
+                for x in n:
+                    fix(x)
+                return
+            if not isinstance(n, dict):
+                return
+            for v in n.values():
+                if isinstance(v, (dict, list)):
+                    fix(v)
+            if n.get("k") == "MethodCall" and (n.get("path") or "").startswith(trait + "::") and not n.get("inst_path"):
+                r = n.get("recv")
+                while isinstance(r, dict) and r.get("k") in ("DropTemps", "Paren", "AddrOf") and "e" in r:
+                    r = r["e"]
+                while isinstance(r, dict) and r.get("k") == "Unary" and r.get("op") == "Deref":
+                    r = r["e"]
+                if isinstance(r, dict) and r.get("k") == "Path" and r.get("res") == "local" and r.get("id") in self_ids:
+                    m2 = n["path"].rsplit("::", 1)[1]
+                    c, t2 = concrete(trait, m2, ty)
+                    if c:
+                        n["inst_path"] = c
+                    else:
+                        sp_ = specialise(trait, m2, t2)
+                        if sp_:
+                            n["inst_path"] = sp_
+        fix(nb.get("hir"))
+        nb.pop("mir", None)
+        return key
+
+    def hir(n):
+        if isinstance(n, list):
+            for x in n:
+                hir(x)
+            return
+        if not isinstance(n, dict):
+            return
+        for v in n.values():
+            if isinstance(v, (dict, list)):
+                hir(v)
+        if n.get("k") == "MethodCall" and not n.get("inst_path"):
+            pth = n.get("path") or ""
+            tr = next((t for t in traits if pth.startswith(t + "::") and pth.count("::") == t.count("::") + 1), None)
+            if tr is None:
+                return
+            r = n.get("recv")
+            while isinstance(r, dict) and r.get("k") in ("DropTemps", "Paren") and "e" in r:
+                r = r["e"]
+            ty = (r.get("adj_ty") or r.get("ty")) if isinstance(r, dict) else None
+            if not ty or "dyn " in ty or _re.fullmatch(r"&?(mut )?[A-Z]\w{0,2}", strip_ty(ty) or "X"):
+                return       # a trait object or a type parameter: the receiver's type is not known here
+            method = pth.rsplit("::", 1)[1]
+            c, t2 = concrete(tr, method, ty)
+            if c:
+                n["inst_path"] = c
+            elif f"{tr}::{method}" in provided and t2 and "dyn " not in t2:
+                sp_ = specialise(tr, method, t2)
+                if sp_:
+                    n["inst_path"] = sp_
+    for b in list(bodies):
+        if b.get("hir") is not None:
+            hir(b["hir"])
+    bodies.extend(made.values())
+
+
 def _resolve_conversions(bodies):
     """Implicit conversions spelled through the standard dispatchers — `x.into()`, `x.try_into()`, `s.parse()` — are calls of the
     crate's own `From` / `TryFrom` / `FromStr` impl of the target type (that is all the dispatchers do). They are rewritten to
@@ -614,6 +751,7 @@ class Crate:
                 full.update({"zeep_lib::" + k_: v_ for k_, v_ in lasts.items()})
                 _rename_method_calls(d.get("bodies", []), full)
         _resolve_conversions(d.get("bodies", []))
+        _resolve_trait_methods(d.get("bodies", []))
         self.name = d["crate"]
         self.items = d["items"]
         self.defs = d["defs"]
